@@ -13,7 +13,7 @@ namespace {
 const double PI = 3.14159265358979323846;
 const double LAT_MAX = 89.9 * PI / 180.0;
 
-struct Geo {double lat, lon, h;};
+struct Geo {double lat, lon, h; bool specialMeridian = false;};
 struct Ell {double a, b; int kind;};
 
 Ell genEllipsoid(vf::Ctx & c)
@@ -61,13 +61,29 @@ Geo genGeo(vf::Ctx & c)
   }
   size_t hc = c.s.pick("h_class", {1, 3});
   g.h = (hc == 0) ? 0.0 : c.s.r("h", -11000.0, 100000.0);
+  g.specialMeridian = lc == 2;
+  return g;
+}
+
+// (drawn after every older draw so that older tapes stay replayable) magnitudes that a draw over the whole range
+// practically never produces: a latitude within 1e-2 .. 1e-12 rad of the equator, a height of a millimetre to 100 m
+void maybeSmallMagnitudes(vf::Ctx & c, Geo & g)
+{
+  size_t sm = c.s.pick("small_magnitude_class", {8, 1, 1, 1});
+  if (sm == 1 || sm == 3) {g.lat = (c.s.flag("small_lat_south") ? -1.0 : 1.0) * std::pow(10.0, -c.s.uni("small_lat_exp", 2.0, 12.0));}
+  if (sm == 2 || sm == 3) {g.h = (c.s.flag("small_h_negative") ? -1.0 : 1.0) * std::pow(10.0, c.s.uni("small_h_exp", -3.0, 2.0));}
+}
+
+void labelGeo(vf::Ctx & c, const Geo & g)
+{
   if (PI - std::fabs(g.lon) < 1e-6) {c.label("antimeridian(<1e-6rad)"); c.nontrivial();}
   if (std::fabs(g.lon) == PI) {c.label("antimeridian-exact");}
   if (std::fabs(g.lat) > 85.0 * PI / 180.0) {c.label("high-lat(>85deg)"); c.nontrivial();}
+  if (std::fabs(g.lat) <= 1e-2 && g.lat != 0) {c.label("latitude-within-1e-2rad-of-the-equator");}
+  if (g.h != 0 && std::fabs(g.h) <= 100.0) {c.label("height-within-100m-of-the-ellipsoid");}
   if (g.h < 0) {c.label("negative-height"); c.nontrivial();}
-  if (lc == 2) {c.label("prime/90deg-meridian"); c.nontrivial();}
+  if (g.specialMeridian) {c.label("prime/90deg-meridian"); c.nontrivial();}
   if (g.h > 0) {c.nontrivial();}
-  return g;
 }
 
 // reference forward conversion in long double, from a and b only
@@ -118,6 +134,8 @@ void forwardRoundTrip(vf::Ctx & c)
   Geo g = genGeo(c);
   int how = static_cast<int>(c.s.pick("converter_made_by", {3, 1, 1}));
   if (how != 0) {c.label("converter-is-a-copy(assigned/constructed)");}
+  maybeSmallMagnitudes(c, g);
+  labelGeo(c, g);
   c.commit();
 
   ECEFConverter conv = makeConverter(e, how);
@@ -172,25 +190,32 @@ void reverseRoundTrip(vf::Ctx & c)
   Ell e = genEllipsoid(c);
   size_t mode = c.s.pick("xyz_mode", {4, 1});
   Eigen::Vector3d X;
+  Geo src{0, 0, 0};
+  bool negzero = false;
   if (mode == 0) {
-    Geo g = genGeo(c);
-    long double R[3], n[3], p0[3];
-    refForward(e, g, R, n, p0);
-    X = Eigen::Vector3d(static_cast<double>(R[0]), static_cast<double>(R[1]), static_cast<double>(R[2]));
+    src = genGeo(c);
   } else {
     // exact half-plane Y = +-0, X < 0 : longitude exactly 180 degrees
     double lat = c.s.r("lat", -LAT_MAX, LAT_MAX);
     double h = c.s.r("h", -11000.0, 100000.0);
-    bool negzero = c.s.flag("neg_zero_y");
-    Geo g{lat, PI, h};
-    long double R[3], n[3], p0[3];
-    refForward(e, g, R, n, p0);
-    X = Eigen::Vector3d(static_cast<double>(R[0]), negzero ? -0.0 : 0.0, static_cast<double>(R[2]));
-    c.label("half-plane-Y=0,X<0");
-    c.nontrivial();
+    negzero = c.s.flag("neg_zero_y");
+    src = Geo{lat, PI, h};
   }
   int how = static_cast<int>(c.s.pick("converter_made_by", {3, 1, 1}));
   if (how != 0) {c.label("converter-is-a-copy(assigned/constructed)");}
+  maybeSmallMagnitudes(c, src);
+  {
+    long double R[3], n[3], p0[3];
+    refForward(e, src, R, n, p0);
+    if (mode == 0) {
+      X = Eigen::Vector3d(static_cast<double>(R[0]), static_cast<double>(R[1]), static_cast<double>(R[2]));
+      labelGeo(c, src);
+    } else {
+      X = Eigen::Vector3d(static_cast<double>(R[0]), negzero ? -0.0 : 0.0, static_cast<double>(R[2]));
+      c.label("half-plane-Y=0,X<0");
+      c.nontrivial();
+    }
+  }
   c.commit();
   ECEFConverter conv = makeConverter(e, how);
   GeodeticCoordinates g = conv.toWGS84(X);
